@@ -858,7 +858,7 @@ theorem sync_lz {a g : DB} (h : Lz a.pending a g) (h3 : Inv3 g) (hs : SizeOK g) 
       have h2 : (logWritten Fa.1 Fa.2).failed = Fa.1.failed := by
         unfold logWritten checkLog; split <;> rfl
       rw [← h2]; exact this
-    have ea : sync a = (if (logWritten Fa.1 Fa.2).extra > (logWritten Fa.1 Fa.2).opts.forcedPerc * (logWritten Fa.1 Fa.2).need / 100
+    have ea : sync a = (if (logWritten Fa.1 Fa.2).extra > mul64 (logWritten Fa.1 Fa.2).opts.forcedPerc (logWritten Fa.1 Fa.2).need / 100
         then defrag (logWritten Fa.1 Fa.2) else logWritten Fa.1 Fa.2) := by
       unfold sync
       rw [if_neg (by simp [hva]), if_neg (by rw [h.pending]; simp [hp])]
@@ -1162,11 +1162,11 @@ theorem step_lz {a g : DB} (h : Lz a.pending a g) (h3 : Inv3 g) (op : Op) (hnr :
     have hx : a.extra = g.extra := (congrArg DB.extra h.sh : (shell a).extra = (shell g).extra)
     have hn : a.need = g.need := (congrArg DB.need h.sh : (shell a).need = (shell g).need)
     have ho : a.opts = g.opts := (congrArg DB.opts h.sh : (shell a).opts = (shell g).opts)
-    have ea : (defragOp a f).1 = if (f || decide (g.extra > g.opts.defragPerc * g.need / 100)) = true then defrag a else a := by
+    have ea : (defragOp a f).1 = if (f || decide (g.extra > mul64 g.opts.defragPerc g.need / 100)) = true then defrag a else a := by
       unfold defragOp; rw [if_neg (by simp [hfa]), if_neg (by simp [hva]), hx, hn, ho]
       dsimp only
       split <;> rfl
-    have eg' : (defragOp g f).1 = if (f || decide (g.extra > g.opts.defragPerc * g.need / 100)) = true then defrag g else g := by
+    have eg' : (defragOp g f).1 = if (f || decide (g.extra > mul64 g.opts.defragPerc g.need / 100)) = true then defrag g else g := by
       unfold defragOp; rw [if_neg (notFailed inv.cached), if_neg (by simp [inv.nv])]
       dsimp only
       split <;> rfl
@@ -1389,12 +1389,18 @@ def twinItem : HItem → HItem
 /-- the same history in which every NewDBExt loads the data at once — run by the eager ghost -/
 def twin (H : List HItem) : List HItem := H.map twinItem
 
+/-- what a walk function of Browse may return: any 32-bit word (NO_CACHE, NO_BROWSE, YES_CACHE, YES_BROWSE and every
+    meaningless bit included) WITHOUT the BR_ABORT bit — the model's Browse always visits every record (the real one
+    stops after the record whose walk result carries BR_ABORT; which records it has visited by then depends on Go's map
+    order) -/
+def WalkOK5 (w : List (Key × Nat)) : Prop := ∀ kf ∈ w, kf.2 < 2^32 ∧ hasFlag kf.2 BR_ABORT = false
+
 /-- the operations of the real store: ANY flags (32-bit, NO_CACHE included) in PutExt / ApplyFlags / walk results,
     Close + NewDBExt in ANY mode with ANY LoadData -/
 def OpOK5 : Op → Prop
   | .putExt _ _ f => f < 2^32
   | .applyFlags _ fl => fl < 2^32
-  | .browse w => ∀ kf ∈ w, kf.2 < 2^32
+  | .browse w => WalkOK5 w
   | _ => True
 
 theorem hasFlag_big32 (x : Nat) (h : x < 2^32) : hasFlag x (ncOf true) = false :=
@@ -1404,7 +1410,7 @@ theorem opOK3_twin (op : Op) (h : OpOK5 op) : OpOK3 true (twinOp op) := by
   cases op with
   | putExt k v f => exact hasFlag_big32 f h
   | applyFlags k fl => exact hasFlag_big32 fl h
-  | browse w => exact fun kf hkf => hasFlag_big32 kf.2 (h kf hkf)
+  | browse w => exact fun kf hkf => hasFlag_big32 kf.2 (h kf hkf).1
   | reopen vol load opts => rfl
   | put k v => trivial
   | del k => trivial
